@@ -22,6 +22,8 @@ CHECKS = {
          "All slice lengths, header-field sweeps and accessor bundles judged per event.", "6 C06"),
  "C08": (MC, "Distance.tla laws checked by TLC on recorded law bundles (TraceHash.tla) and exhaustively on toy variants (MCDistance); the specification's max-distance witness replayed into the code",
          "Laws are checked both as equalities with the specification's distance and relationally between observed values.", "6 C08"),
+ "C09": (MC, "LengthCode.tla on the pinned table: TLC model check of the table laws (MCLengthCode), Apalache over unbounded integers for symbolic lengths (LengthCodeApa), and TLC trace validation of the exhaustive native sweep of all 2^32 lengths compressed to 171 runs plus all 256 raw codes (TraceLen.tla)",
+         "Exhaustive over the whole 32-bit domain (run-length compressed observation judged run by run); table laws proved for symbolic lengths by SMT.", "6 C09"),
  "C10": (MC, "Reference.tla finalisation lattice: TLC model MCFinalizeLattice (all option pairs on arbitrary small states) + TLC trace validation of 32-option fans at the published limits (TraceGen.tla)",
          "Every recorded fan is checked against the reference, the permissiveness lattice and the exact length-error condition.", "6 C10"),
  "C11": (MC, "Generator.tla at narrow counter width W=6 (MCGenLimit: every history across MAX, 2^W-4, 2^W) + TLC trace validation at W=32 from injected states next to the three real boundaries (TraceGen.tla)",
@@ -34,6 +36,8 @@ CHECKS = {
          "Every buffer length in the range for every form and variant.", "6 C14"),
  "C15": (MC, "HashCodec.tla strict acceptance (StrictValid, ApplicableParseErrors) judged by TLC on recorded strict-build parser events; every generated hash checked strict-valid and round-tripped (TraceGen.tla)",
          "Strict-build field sweeps through text and bytes; generator side on all recorded finalisations.", "6 C15"),
+ "C16": (MC, "Serde.tla (SerOf / DeAllows / format framing) judged by TLC on recorded serde events: real formats (serde_json, ciborium, postcard) and a scripted mock (de)serializer answering with every visitor event (TraceHash.tla)",
+         "Every recorded (human-readable?, visitor event, payload) combination in three feature sets; acceptance iff the matching parser accepts; no panic.", "6 C16"),
 }
 done = json.load(open(V + "/tools/enabled_checks.json"))
 checks = []
